@@ -24,7 +24,7 @@ ASSUMPTIONS = [
     "the file system and UTF-8 decoding are trusted: the policy file is its decoded text; files are real temp files outside the repository",
     "models without priority columns (sort_policies_by_priority is the identity) and with the default auto_build_role_links = True",
     "filtered_exact is proved on the domain where the adapter's naive split(',') sees the loader's fields and the filter is not longer than the rule (naiveOK); outside it the real code is probed against the model and differences from the property are reported under the signature of F20",
-    "files containing a line on which load_policy_line raises are probed against the model only (the property does not say what a failed load leaves behind; see C11)",
+    "after a failed FULL load memory is what it was, so the property keeps deciding the following saves (F26a fixed, F26b open); what a failed FILTERED load leaves in memory is not judged (see C11), only compared with the model",
     "filter values are compared modulo surrounding blanks, as the blankness test itself is",
 ]
 TRUSTED_EXTRA = ["CPython str.strip/split: modelled in lean/CasbinV/Py/Str.lean, validated against CPython by the C10 check"]
